@@ -112,6 +112,10 @@ func (l *lexer) acceptLiteral(ttype int) bool {
 
 func (l *lexer) acceptNumeric(ttype int) bool {
 	first := true
+	// a sign belongs to the number if a digit follows it
+	if strings.HasPrefix(l.input[l.pos:], "-") && len(l.input) > l.pos+1 && unicode.IsDigit(rune(l.input[l.pos+1])) {
+		l.next()
+	}
 	for {
 		r := l.next()
 		if unicode.IsDigit(r) || (!first && r == '.') {
